@@ -195,6 +195,23 @@ func (c *Ctx) c05Sibling(fo *FO) {
 			r.Unknown("R05.*", cons, err.Error())
 			return
 		}
+		// R05.2: the stored result stays: after the build's store nothing of this Get writes the key again. All writes of a Get are on
+		// the owner's one sequence (refresh, then build, main or background); a second goroutine started beside the build (a "keep the
+		// stale value alive" ticker) can write the stale value over the built one
+		for _, g := range goEvents(p) {
+			for _, sp := range g.Sub {
+				for _, g2 := range goEvents(sp) {
+					for _, sp2 := range g2.Sub {
+						for _, ev := range sp2.Events {
+							if ev.Kind == pw.EvCall && (ev.Role == "BackendWrite" || ev.Role == "ErrorsWrite") {
+								d, t := c.pathDetail(fo, p, "a goroutine started beside the background build writes to the cache ("+ev.Role+"): it is not ordered with the build's store and can overwrite the built value with the stale one")
+								r.Bad("R05.2", cons, "write-beside-the-build", c.Pos(ev.Pos), d, t)
+							}
+						}
+					}
+				}
+			}
+		}
 		// R05.1
 		if fo.cfgBool(p, "SyncRead") == triTrue {
 			nSync++
